@@ -34,7 +34,9 @@ import (
 	"time"
 
 	"com.tuntun.rangers/node/src/common"
+	middleware_pb "com.tuntun.rangers/node/src/middleware/pb"
 	"com.tuntun.rangers/node/src/middleware/types"
+	"github.com/gogo/protobuf/proto"
 	"verif/harness/internal/codecutil"
 	"verif/harness/internal/vutil"
 )
@@ -153,7 +155,45 @@ var codecs = map[string]codec{
 	},
 }
 
+var errNilResult = fmt.Errorf("nil result")
+
 func init() {
+	// the exported converters behind the parsers: core/sync_msg.go and consensus/net call them on
+	// messages they unmarshalled themselves.  They have no error result: the contract observed is
+	// "a complete object or nil" (nil counts as the refusal); a non-nil object without its header
+	// is neither.
+	codecs["pbblock"] = codec{
+		marshal: codecs["block"].marshal,
+		parse: func(b []byte) (interface{}, bool, error) {
+			pb := new(middleware_pb.Block)
+			if err := proto.Unmarshal(b, pb); err != nil {
+				return nil, false, err
+			}
+			blk := types.PbToBlock(pb)
+			if blk == nil {
+				return nil, false, errNilResult
+			}
+			return blk, blk.Header != nil, nil
+		},
+		project: codecs["block"].project,
+		hash:    codecs["block"].hash,
+	}
+	codecs["pbgroup"] = codec{
+		marshal: codecs["group"].marshal,
+		parse: func(b []byte) (interface{}, bool, error) {
+			pb := new(middleware_pb.Group)
+			if err := proto.Unmarshal(b, pb); err != nil {
+				return nil, false, err
+			}
+			g := types.PbToGroup(pb)
+			if g == nil {
+				return nil, false, errNilResult
+			}
+			return g, g.Header != nil, nil
+		},
+		project: codecs["group"].project,
+		hash:    codecs["group"].hash,
+	}
 	codecs["member"] = codec{
 		marshal: func(v interface{}) ([]byte, error) { return types.MarshalMember(v.(*types.Member)) },
 		parse: func(b []byte) (interface{}, bool, error) {
@@ -168,7 +208,7 @@ func init() {
 	}
 }
 
-var kinds = []string{"tx", "txs", "header", "block", "group", "member"}
+var kinds = []string{"tx", "txs", "header", "block", "group", "member", "pbblock", "pbgroup"}
 
 type outcome struct {
 	res, where, msg string
@@ -531,6 +571,7 @@ func concurrent(kind string, vals []interface{}, rounds, iters int) (ran, emitte
 }
 
 func buildKind(kind string, cls classes, rng *rand.Rand) interface{} {
+	kind = strings.TrimPrefix(kind, "pb")
 	switch kind {
 	case "member":
 		return &types.Member{Id: cBytes(cls.get("Id"), rng), PubKey: cBytes(cls.get("PubKey"), rng)}
@@ -664,6 +705,7 @@ var fieldKinds = map[string]map[string]string{
 // randClasses draws a class for every field from the classes a node can
 // produce or parse (so the strong law applies to the value).
 func randClasses(kind string, rng *rand.Rand) classes {
+	kind = strings.TrimPrefix(kind, "pb")
 	k := kind
 	if kind == "txs" {
 		k = "tx"
@@ -723,7 +765,12 @@ func main() {
 			a := buildKind(c.Kind, classes(c.Cls), rng)
 			roundTripRetained(c.Kind, a, "retain", c.Cls, c.Inter, buildKind(c.Kind, randClasses(c.Kind, rng), rng))
 		case "presence":
-			parseEvent(c.Kind, encPresence(c, rng), "presence", c)
+			b := encPresence(c, rng)
+			parseEvent(c.Kind, b, "presence", c)
+			// the same message through the exported converter
+			if c.Kind == "block" || c.Kind == "group" {
+				parseEvent("pb"+c.Kind, b, "presence", c)
+			}
 		default:
 			vutil.Fatalf("unknown case op %q", c.Op)
 		}
